@@ -27,6 +27,7 @@
 #include <algorithm>
 #include <iomanip>
 #include <unistd.h>
+#include <sys/stat.h>
 #include <sys/wait.h>
 #include <sys/syscall.h>
 #include <arpa/inet.h>
@@ -340,6 +341,7 @@ struct Inst
   // input configuration (N line)
   int in_mode = 0; int msop_port = 0, difop_port = 0; bool vlan = false, repeat = false; float rate = 1000000.0f;
   std::vector<std::pair<uint32_t, std::vector<uint8_t>>> frames;   // pcap records (len, captured bytes)
+  bool cut_file = false;                                             // FT: the capture file ends in the middle of its last record
   std::vector<std::pair<int, std::vector<uint8_t>>> dgrams;         // (port, payload)
   std::shared_ptr<PC> get()
   {
@@ -535,6 +537,7 @@ static int run_scenario(std::vector<std::string>& lines)
             if (!fr.second.empty()) fwrite(fr.second.data(), 1, fr.second.size(), pf);
           }
           fclose(pf);
+          if (in->cut_file && !in->frames.empty()) { struct stat sb; if (stat(in->lpath.c_str(), &sb) == 0) { if (truncate(in->lpath.c_str(), sb.st_size - (off_t)(in->frames.back().second.size() / 2 + 1)) != 0) perror("truncate"); } }
           p.input_type = InputType::PCAP_FILE; p.input_param.pcap_path = ok ? in->lpath : in->lpath + ".missing";
           p.input_param.pcap_repeat = in->repeat; p.input_param.pcap_rate = 1000000.0f;
         }
@@ -725,6 +728,7 @@ static int run_scenario(std::vector<std::string>& lines)
       Inst& in = *insts[(int)I(1)];
       in.in_mode = (int)I(2); in.msop_port = (int)I(3); in.difop_port = (int)I(4); in.vlan = I(5) != 0; in.repeat = I(6) != 0; in.rate = t.size() > 7 ? (float)atof(t[7].c_str()) : 1000000.0f;
     }
+    else if (c == "FT") { insts[(int)I(1)]->cut_file = true; }
     else if (c == "F") { Inst& in = *insts[(int)I(1)]; in.frames.push_back({(uint32_t)I(2), t.size() > 3 ? unhex(t[3]) : std::vector<uint8_t>()}); }
     else if (c == "U") { Inst& in = *insts[(int)I(1)]; in.dgrams.push_back({(int)I(2), t.size() > 3 ? unhex(t[3]) : std::vector<uint8_t>()}); }
     else if (c == "GO")
@@ -750,6 +754,8 @@ static int run_scenario(std::vector<std::string>& lines)
           if (!fr.second.empty()) fwrite(fr.second.data(), 1, fr.second.size(), pf);
         }
         fclose(pf);
+        // FT: a capture whose writer was killed: the last record's header is there, its data is not complete
+        if (in->cut_file && !in->frames.empty()) { struct stat sb; if (stat(path.c_str(), &sb) == 0) { if (truncate(path.c_str(), sb.st_size - (off_t)(in->frames.back().second.size() / 2 + 1)) != 0) perror("truncate"); } }
         p.input_type = InputType::PCAP_FILE; p.input_param.pcap_path = path;
       }
       else p.input_type = InputType::ONLINE_LIDAR;
